@@ -38,6 +38,7 @@ func HarnessCrash() {
 	opset := vrt.Param("opset", 7) // bit i enables op i: 1 append, 2 append-two, 4 DeleteRange, 8 stable Set
 	pre := vrt.Param("pre", 0)     // entries appended (one per batch) before crash points are armed
 	script := vrt.Param("script", 0)
+	crashKind := vrt.Param("crashkind", 0)
 	var enabled []int
 	for i := 0; i < 4; i++ {
 		if opset&(1<<i) != 0 {
@@ -158,9 +159,17 @@ func HarnessCrash() {
 		}
 		vrt.Reach("crashed")
 		collisions += fs.Collisions
-		// power loss: build what the disk may hold
+		// power loss: build what the disk may hold. With crashkind=1 every epoch but the
+		// last ends with a crash of the process only (the page cache survives, nothing
+		// more became durable), so that the final power loss can still take what an
+		// earlier incarnation wrote and never synced.
 		w2 := sym.NewWorld()
-		fs = fs.CrashImage(w2)
+		if crashKind == 1 && ep < E-1 {
+			fs = fs.ProcessCrashImage(w2)
+			vrt.Reach("process-crash")
+		} else {
+			fs = fs.CrashImage(w2)
+		}
 		meta = meta.Survive(w2)
 		w = w2
 	}
